@@ -4,9 +4,11 @@ From LW Require Import Gen.Globals Model.Threads Proofs.ThreadsProofs.
 Import ListNotations.
 
 (* every object file of the library, built with the shipping flags from the current tree, has no
-   writable or thread-local data, no COMMON symbol, and no function-local static variable *)
+   writable or thread-local data, no COMMON symbol, no function-local static variable, and imports no C-library
+   function that keeps process-wide state of its own (rand, strtok, localtime, strerror, getenv ...: POSIX's list of
+   functions that need not be thread-safe, plus the random/locale/environment families) *)
 Theorem c16_no_writable_state :
-  globals_scan_ok = true /\ writable = [] /\ static_locals = [].
+  globals_scan_ok = true /\ writable = [] /\ static_locals = [] /\ stateful_imports = [].
 Proof. repeat split; reflexivity. Qed.
 Print Assumptions c16_no_writable_state.
 
